@@ -94,7 +94,11 @@ RowsMatch(d, rows) ==
   /\ d.obs = Bag3(rows.obs)
   /\ d.miss = Bag3(rows.miss)
   /\ d.tasks = Bag3(rows.tasks)
-TSaveOutput == IsEvent("SaveOutput") /\ SaveOutput /\ RowsMatch(db', Rec.rows)
+\* value-level clauses of C09, evaluated by the audit with plain SQL and logged:
+\*   epochs unique, strictly increasing, timestamp = Julian date (independent conversion);
+\*   no row refers to a missing epoch or agent; stored states/covariances equal the held ones
+ValuesOk(rows) == rows.epochs_ok /\ rows.dangling = 0 /\ rows.readback
+TSaveOutput == IsEvent("SaveOutput") /\ SaveOutput /\ RowsMatch(db', Rec.rows) /\ ValuesOk(Rec.rows)
 \* a commit that raised: the audit of all tables afterwards must equal the state before
 TSaveFail == IsEvent("SaveFail") /\ SaveFail /\ RowsMatch(db', Rec.rows)
 TSkipOutput == IsEvent("SkipOutput") /\ SkipOutput
